@@ -85,17 +85,37 @@ def num(x, nt):
     return F(x)
 
 
+STATS = {"built": 0, "touched": 0, "fallback": 0, "siblings": 0, "via_negation": 0, "lifts_from_points_with_a_past": 0,
+         "alias_moves": 0, "alias_reread_failed": 0}      # shared with props.common.HIST_STATS
+
+
 def lift(d, rng=None, nt=float, form=None):
     """build the real object.  ``rng`` (random.Random) picks among equivalent
     constructor forms / vertex orders; None = canonical form."""
     G = load()
     k = d[0]
     r = rng
+    # "points with a past": every caller-side Point handed to a constructor in this lift has first been used to build
+    # lines / segments / half lines that were then moved away - the Point itself must not have noticed
+    season = r is not None and k not in ("P", "VEC") and r.random() < 0.07
+    if season:
+        STATS["lifts_from_points_with_a_past"] += 1
 
     def P(p):
         if r is not None and r.random() < 0.15:
-            return G.Point([num(c, nt) for c in p])
-        return G.Point(num(p[0], nt), num(p[1], nt), num(p[2], nt))
+            pt = G.Point([num(c, nt) for c in p])
+        else:
+            pt = G.Point(num(p[0], nt), num(p[1], nt), num(p[2], nt))
+        if season and r.random() < 0.6:
+            w = G.Vector(*r.choice(((0.5, -1.0, 2.0), (-2.0, 0.25, 1.0), (1.0, 3.0, -0.5))))
+            try:
+                G.Line(pt, G.Vector(1.0, 2.0, 2.0)).move(w)
+                G.Line(pt, G.Point(float(p[0]) + 1.0, float(p[1]) - 2.0, float(p[2]) + 0.5)).move(w)
+                G.Segment(pt, G.Vector(0.5, 1.0, -1.0)).move(w)
+                G.HalfLine(pt, G.Vector(-1.0, 0.5, 1.0)).move(w)
+            except Exception:
+                pass
+        return pt
 
     def Vv(p):
         return G.Vector(num(p[0], nt), num(p[1], nt), num(p[2], nt))
